@@ -79,3 +79,70 @@ func (s scriptedServer) entry() client.GCAServer {
 
 func (s scriptedServer) tcpAddr() string { return fmt.Sprintf("%s:%d", s.Addr, s.Port+1) }
 func (s scriptedServer) udpAddr() string { return fmt.Sprintf("%s:%d", s.Addr, s.Port+2) }
+
+// ---- client + real server ----
+
+type pairWorld struct {
+	Srv  *opsWorld
+	Cli  *cliWorld
+	Hub  *netHub
+	Dev  keyPair
+	ID   uint32
+	Addr scriptedServer // where the client believes the real server lives
+	// Deliver decides the fate of each datagram the client emits (nil = deliver).
+	Deliver func(n int, dg []byte) bool
+	sent    int
+}
+
+func (p *pairWorld) entry() client.GCAServer { return p.Addr.entry() }
+
+// newPairWorld starts a registered real server with the device authorized and a
+// real client configured for it. init are extra server operations.
+func newPairWorld(name string, capacity uint64, init []string, energy *string, historyOffset uint32) (*pairWorld, error) {
+	sw, err := newOpsWorld(name)
+	if err != nil {
+		return nil, err
+	}
+	p := &pairWorld{Srv: sw, Dev: key("kDev"), ID: 5, Addr: scriptedServer{Name: "real", Key: sw.Srv, Addr: "10.0.0.1", Port: 7000}}
+	ops := append([]string{"reg:G1:temp", fmt.Sprintf("auth:%d:kDev:%d:G1", p.ID, capacity)}, init...)
+	for _, op := range ops {
+		if r := sw.apply(op); r.Sig != "" {
+			sw.Abandon()
+			return nil, fmt.Errorf("init op %s: %s (%s)", op, r.Sig, r.Obs)
+		}
+	}
+	scriptClientRandomness()
+	p.Hub = newHub()
+	p.Hub.serveReal(p.Addr.tcpAddr(), sw.srvWorld)
+	p.Hub.UDP[p.Addr.udpAddr()] = func(b []byte) error {
+		n := p.sent
+		p.sent++
+		if p.Deliver != nil && !p.Deliver(n, b) {
+			return nil
+		}
+		sw.S.VerifInjectDatagram(b)
+		sw.M.datagram(b, sw.Now)
+		return nil
+	}
+	cfg := cliConfig{Key: p.Dev, ShortID: p.ID, GCA: key("G1").Pub, HistoryOffset: historyOffset, Energy: energy,
+		Servers: map[glow.PublicKey]client.GCAServer{sw.Srv.Pub: p.entry()}}
+	p.Cli, err = newClientWorld(cfg)
+	if err != nil {
+		sw.Abandon()
+		return nil, err
+	}
+	return p, nil
+}
+
+func (p *pairWorld) finish(res *bfsResult, poisoned bool) {
+	if poisoned {
+		p.Cli.Abandon()
+		p.Srv.Abandon()
+		return
+	}
+	if pn := safely(func() { p.Cli.Close() }); pn != "" {
+		res.fail("client-close-panic", pn)
+	}
+	p.Cli.Cleanup()
+	p.Srv.finish(res)
+}
